@@ -140,6 +140,18 @@ theorem charged_claim (env : Env) (c : Call) (ctx ctx' : Ctx) (out : VMOutput)
     charge c.gas out = env.gas.fn.claimDeveloperRewards :=
   (charge_claimDeveloperRewards env c ctx hsnd hdst hnot).elim h
 
+/-- K1 — KNOWN FINDING (KNOWN_FINDINGS.txt, DESIGN §7.4): the case `charged_claim` excludes is a real deviation from the
+    property, not a gap of the proof.  Claimed by a smart contract through an asynchronous call, both accounts on the
+    executing shard, a successful ClaimDeveloperRewards consumes ALL provided gas: GasRemaining is 0 and the output
+    transfer that carried the remaining gas has been dropped with the output accounts.  (Proved of the model; the
+    correspondence and the C16 oracle show the same on the real code: replayable with `corpus/K1-claim-async-contract.ops`.) -/
+theorem claim_by_contract_async_consumes_all (env : Env) (c : Call) (ctx ctx' : Ctx) (out : VMOutput)
+    (hsnd : present env.nshards env.self c.caller = true) (hdst : present env.nshards env.self c.rcv = true)
+    (hct : c.callType = 1) (hsc : isSmartContractAddress c.caller = true)
+    (h : claimDeveloperRewards env c ctx = .ok (out, ctx')) :
+    out.gasRemaining = 0 ∧ out.outAccts = [] ∧ charge c.gas out = c.gas :=
+  (charge_claim_async_contract env c ctx hsnd hdst hct hsc).elim h
+
 /-- stored bytes for NFT create: all argument bytes at StorePerByte -/
 theorem charged_nftCreate (env : Env) (c : Call) (ctx ctx' : Ctx) (out : VMOutput) (hg : c.gas < 2 ^ 64)
     (hlen : totalLen c.args < 2 ^ 31) (hstore : env.gas.base.storePerByte < 2 ^ 32) (hcost : env.gas.fn.esdtNFTCreate < 2 ^ 32)
